@@ -328,6 +328,12 @@ ben_multi('fallback_extracted', [(C, """	if errors.Is(err, persistence.ErrNoStat
 
 func (e *client) GetLatestStatus(""", 1)])
 
+# ---- functions under contract renamed (call sites included)
+ben('function_renamed_running_count', S, "runningCount(g", "countRunning(g", count=2)
+ben_multi('function_renamed_is_ready', [(S, "isReady(g", "dependenciesAllow(g", 2)])
+ben('function_with_closure_renamed', 'internal/dag/executor/command.go', "newCommand", "buildCommand", count=3)
+ben('method_renamed_setup_retry', G, "setupRetry()", "markForRetry()", count=2)
+
 def main():
     repo = sys.argv[1] if len(sys.argv) > 1 else '/repo'
     out = os.path.join(V, 'benign')
